@@ -4,8 +4,8 @@ i = s.index('### 12.5 Which check catches which seeded change')
 table = open('/tmp/seedtable.md').read()
 new = '''### 12.5 Which check catches which seeded change
 
-320 changes were written by sub-agents that saw only the text of one property and their own scratch worktree: two per property in each of eight rounds
-(A, B; C, D; E, F; G, H; I, J; K, L; M, N; O, P). From the second round on the agents were additionally told one line about each earlier change for their property so as not to repeat it; in the fourth round the two
+360 changes were written by sub-agents that saw only the text of one property and their own scratch worktree: two per property in each of nine rounds
+(A, B; C, D; E, F; G, H; I, J; K, L; M, N; O, P; Q, R). From the second round on the agents were additionally told one line about each earlier change for their property so as not to repeat it; in the fourth round the two
 changes had prescribed styles: G a concurrency or resource-lifetime slip (a lock moved, a goroutine added, pooling or caching, a timer, a finalizer, a deferred clean-up in the wrong place),
 H a slip in glue or wiring (the main program's flags and the way it builds its components, a constructor's defaults, a small helper, a library option, an error translated on its way up).
 In the fifth round: I a slip on an error path or at a boundary (something failing half-way, the first / last / empty / maximal element, two things ending at the same moment),
@@ -16,9 +16,12 @@ In the seventh round: M a change whose misbehaviour depends on the *environment*
 a system clock that is set, symbolic links, a directory that takes no files), N a behaviour-preserving-looking *refactor* that moves or reorders something (a check moved past an unlock or above another check, a block moved below the point where the terminal is raw, a loop replaced by `io.Copy`, an errgroup by a `WaitGroup`, helpers extracted that each take the lock themselves).
 In the eighth round: O a *performance optimisation* a reviewer would welcome (a buffer reused, a copy avoided with `unsafe.String`, writes or notices coalesced, a value cached, a fast path, a loop made parallel, a read-write lock),
 P a *simplification / clean-up / modernisation* (code that looks redundant deleted, two near-identical paths unified, a hand-written loop replaced by a newer library helper, error handling tidied).
-The checks as they stood missed about a third of the changes of the early rounds at first sight (11 of 38 in round three) and about half of rounds four and five (22 of 42, 21 of 40): prescribing a *style* the checks had not met yet is what kept finding blind spots. Every miss led to the strengthening listed below; with the machinery as committed every one of the 320 is reported except six of the sixth round's feature additions (C02-L `-takeover`, C03-L `-max-output-chunk`, C05-L an environment variable switching on per-SNI certificates,
+In the ninth round: Q an *addition of observability or diagnostics* (more detail in a notice, counters behind a signal, a status function, timing, an error ring, a trace hook) whose slip is a side effect of looking,
+R a change that makes the code *more testable or more portable* (an injectable clock / listener / file system, a function split so that a test can call the middle, a zero value made usable, a fallback for a missing terminal) whose slip is in the default wiring or the fallback.
+The checks as they stood missed about a third of the changes of the early rounds at first sight (11 of 38 in round three) and about half of rounds four and five (22 of 42, 21 of 40): prescribing a *style* the checks had not met yet is what kept finding blind spots. Every miss led to the strengthening listed below; with the machinery as committed every one of the 360 is reported except two of the ninth round (C02-R: a fallback that lets the program run *without* a terminal, reading lines from standard input, and mangles long lines there; C12-R: a listening socket inherited through a new environment variable and not closed - both are behaviour that does not exist at the pinned commit and only misbehaves when it is used) and six of the sixth round's feature additions (C02-L `-takeover`, C03-L `-max-output-chunk`, C05-L an environment variable switching on per-SNI certificates,
 C14-L `ConnectTimeout`, C16-L `-strip-comments`, C19-L `-line-buffer`): each breaks its property only when the new option is switched on, and a check built for the pinned interface has no way of knowing that an option exists, let alone what a legitimate use of it is.
 The other fourteen feature additions of that round break something with the feature *unused* and are caught. Sixth round at first sight: 19 of 40 missed or answered with a broken check (exit 2) instead of a verdict.
+Ninth round at first sight: 21 of 40 reported at once, 3 answered with a hang, 16 missed.
 Eighth round at first sight: 27 of 40 reported at once, 2 answered with a hang or exit 2 instead of a verdict, 11 missed.
 Seventh round at first sight: of the 20 refactors 18 were reported at once (one answered with exit 2, one missed), of the 20 environment-dependent changes 8 - the checks had, until then, run everything in the one environment they were started in.
 Each change was confirmed here
@@ -146,6 +149,19 @@ What each missed (or nearly missed) change led to:
 | C16-M (sources run through `EvalSymlinks`: the function is named after the link's target) | missed | scripts reached through links whose targets are called `tool_v2.pl`, `tool`, `tool.sh`, as single file, in a directory, through a linked directory; C17's link targets renamed likewise |
 | C17-M (converted bytes cached by name, size and mtime) / C17-N (pattern list and per-file filter looked up at different times) | caught by the row-set and (already present) kept-converter clauses; added all the same: kept-converter edit histories on real files (same length, same mtime, older mtime, contents exchanged), and `SetFilter` from another goroutine while `From` is inside the filter of file k, for every k and 8 kinds of change: the payload is that of the table before or after |
 | C19-M (`lastPlainWrite` stamped with a truncated time: wall clock instead of monotonic) | missed | `vtime.Now` carries a monotonic reading and a wall clock that `StepWall` can set; the system clock is set back / forward ten minutes at every point of every 4-event string beginning with Ctrl+O (512 strings) |
+| C01-Q (`Status()` takes the broker's lock and is called from a refusal that already holds it) / C01-R (`ConnectInOut` waits for "input attached" and has no edge for "input refused") | hang (the virtual-clock tear-down scenario waited for an attempt that never came back) | that scenario gives up on an attempt after the watchdog and stops; **every check now ends**: a global deadline (40 min quick, 6 h thorough) reports what has been found by then |
+| C02-Q (the Ctrl+I notice previews the first line with `append(first[:57], "..."...)` on a sub-slice of the insert) | missed | inserts with lines of 61 .. 70 000 bytes and without any newline |
+| C03-Q (mute statistics: the timer callback returns before un-muting when nothing was hidden) / C03-R (the key callback loses its `go`: lock-order inversion with Ctrl+O) | missed by C03 (the mute is C19's business: C03 excludes muted output) | reported by C19 (`ctrl-o-not-announced`, `flag-...`, `lock-interleaving/deadlock/...`); recorded with C19's output |
+| C04-Q (a 3 s "shell has not taken its input" timer that a failed write leaves armed) | missed | virtual-clock scenario: a shell that ended in each of three ways and was announced gone; twenty minutes later nothing more is said about it and no timer is armed |
+| C05-Q (TLS handshakes timed inside `Accept`) | missed | six connections that never say anything are opened before the keys are checked |
+| C06-Q (a printable per-call ID of 16 bits replaces the per-call pointer) | missed (no search over a handful of requests finds a 1 : 65 536 collision) | free-running complement `c06spray`: one request's input half attached, its output half held back at the admission point by the verif hook, then 400 000 (thorough 2 000 000) foreign `/io` requests: none of their halves is admitted |
+| C07-R (the Host header punycoded eagerly, also when a c2 parameter or header says where to call back) | missed | Hosts that net/http lets through and IDNA conversion refuses (`xn--0.example`), next to an explicit c2 |
+| C09-Q (tally lock held while the response is written) / C09-R (every endpoint also registered with a trailing slash, i.e. as a subtree) | missed | a second client's request while another's download is stalled; a tree with directories named `c`, `i`, `o` (files below them are files; with no files served, 404) |
+| C10-Q (the notice re-read from a shared "latest notice" field after the unlock) / C10-R (`http.AllowQuerySemicolons` in front of every handler) | missed | 4 000 file requests from 16 clients at the same time, each with a target of its own (escapes, `;` in the query): one verbatim notice each |
+| C12-Q (the one-shell sentinel error annotated with `%s`: no longer recognised once net/http has logged any error) | caught only through cases that happened to produce such a log line | clients that do not speak TLS as pre-attempts |
+| C13-Q (statistics array of 8 slots indexed by the chain length, `recover` swallowing the panic *and* the verdict) / C13-R (a round tripper that is not an `*http.Transport` is returned unpinned) | missed | a server that presents twelve certificates; a wrapping round tripper on `http.DefaultClient` whose transport trusts every server |
+| C15-Q (error ring: receive-then-blocking-send on a full channel) | hang | calls of the decoder that are under way are tracked; one that has not returned after five minutes is reported and ends the check |
+| C16-R / C17-R (zero `Converter` made usable: `SetFilter` before the first `From` loses the defaults; an emptied table regains them) | C16 missed | the long-lived converter is given a filter for an unrelated pattern within the histories; C17: a table with every default pattern switched off, and default patterns left as the constructor set them up (they used to be re-set explicitly) |
 | C01-O (`Broker.mu` becomes a read-write lock, admission checks under the read lock) | missed (the gated exploration serialises whole admission sections) | free-running complement `c01stress`: seven kinds of mutually exclusive pairs of attempts released together against an idle broker, 7 000 rounds (thorough 140 000); whatever is attached in the end belongs to one of them |
 | C01-P (the silent return during shutdown routed through the common `refuse` helper, which tells the operator) | missed | profile `c01-shutdown-stalled-terminal` (operator channel of one slot that is not read, attempts arriving after shutdown, also after `Broker.Do` has returned): such an attempt is ended at once |
 | C02-O (`ChanWriter` sends `unsafe.String` of its argument; the converter reuses its buffer) | missed | Ctrl+I twice with nobody attached, the insert source reusing its buffer in between: both queued lines are what was inserted when the key was pressed |
